@@ -88,6 +88,9 @@ type Ctx struct {
 	Exhaustive bool
 	start      time.Time
 
+	Unreproduced     []string
+	Rechecks         int
+	Divergences      int
 	pendingExtra     []pendingViol
 	distinctOverride int
 }
@@ -170,22 +173,43 @@ func (c *Ctx) Batch(jobs []Job, observe func(j Job, r *Run, fs []Finding)) {
 		fs []Finding
 	}
 	nw := workers()
-	in := make(chan Job)
+	recheckEvery := uint64(64) // whole-system runs are many and short; rig batches are few and long
+	if len(jobs) < 2000 {
+		recheckEvery = 8
+	}
+	type ijob struct {
+		Job
+		i int
+	}
+	in := make(chan ijob)
 	out := make(chan res, nw)
 	var wg sync.WaitGroup
 	for w := 0; w < nw; w++ {
 		wg.Add(1)
 		go func(w int) {
 			defer wg.Done()
-			for j := range in {
+			for ij := range in {
+				j := ij.Job
 				r := c.Env.RunBin(c.binFor(j.Rig), w, j.S)
+				// determinism probe: one scenario in 64 is executed a second time in another worker
+				// directory; event log, de-framed stdout and exit status must be identical
+				if long, _ := j.S.Rig["long"].(bool); !long && (uint64(ij.i)*2654435761>>8)%recheckEvery == 0 && !r.TimedOut {
+					r2 := c.Env.RunBin(c.binFor(j.Rig), w+nw, j.S)
+					c.mu.Lock()
+					c.Rechecks++
+					if r2.LogHash() != r.LogHash() {
+						c.Divergences++
+						fmt.Printf("NOTE: scenario seed %d (%s) executed twice gave different logs (%s vs %s)\n", j.S.Seed, j.Tag, r.LogHash(), r2.LogHash())
+					}
+					c.mu.Unlock()
+				}
 				out <- res{j, r, judges[j.Judge](r)}
 			}
 		}(w)
 	}
 	go func() {
-		for _, j := range jobs {
-			in <- j
+		for i, j := range jobs {
+			in <- ijob{j, i}
 		}
 		close(in)
 		wg.Wait()
@@ -262,7 +286,26 @@ func (c *Ctx) report(j Job, r *Run, f Finding) {
 	s := j.S
 	steps := 0
 	if os.Getenv("VSIM_NOSHRINK") == "" {
-		s, r, steps = shrink(c, j, f.Key)
+		var rr *Run
+		s, rr, steps = shrink(c, j, f.Key)
+		if rr == nil {
+			// Four fresh executions of the identical scenario did not show the finding. The simulation
+			// is deterministic (one scenario = one execution), so a verdict that depends on the
+			// machine's clock or load - the CPU watchdog, the wall-clock backstop, a child killed from
+			// outside - was an artefact of the environment, not of the code under test: it is recorded
+			// in the evidence and not reported. Any other verdict was computed from the recorded event
+			// log and is reported with the original scenario, marked as not reproduced.
+			if envDependent(f.Key) {
+				fmt.Printf("NOTE: %s fired once (scenario seed %d) and not in %d fresh executions of the same scenario; environment artefact, not reported\n", f.Key, j.S.Seed, steps)
+				c.mu.Lock()
+				c.Unreproduced = append(c.Unreproduced, f.Key)
+				c.mu.Unlock()
+				return
+			}
+			s = j.S
+		} else {
+			r = rr
+		}
 	}
 	fs := judges[j.Judge](r)
 	detail := f.Detail
@@ -274,6 +317,17 @@ func (c *Ctx) report(j Job, r *Run, f Finding) {
 	rp := Replay{Property: c.ID, Key: f.Key, Detail: detail, Rig: j.Rig, Judge: j.Judge, Scenario: s, LogHash: r.LogHash(), Seed: j.S.Seed,
 		Shrunk: fmt.Sprintf("%d re-executions", steps)}
 	c.writeReplay(rp)
+}
+
+// envDependent tells whether a finding's verdict rests on the machine (time budgets, a killed child)
+// rather than on the recorded event log.
+func envDependent(key string) bool {
+	for _, p := range []string{"watchdog", "rig.died", "dec.slow", "failstop.watchdog", "extract.nontermination", "out-of-memory"} {
+		if strings.Contains(key, p) {
+			return true
+		}
+	}
+	return false
 }
 
 func keyHash(k string) string {
@@ -324,6 +378,9 @@ func (c *Ctx) Finish() {
 		"runs_per_hour":       float64(c.Evals) / wall * 3600,
 		"components":          c.Components,
 		"known_findings_seen": keys,
+		"unreproduced_environment_artefacts": c.Unreproduced,
+		"determinism_reexecutions":           c.Rechecks,
+		"determinism_divergences":            c.Divergences,
 	}
 	if c.Exhaustive {
 		cov["exhaustive"] = true
